@@ -550,7 +550,15 @@ class PVLParser(object):
                 "an Assignment-Statement."
             )
 
-        self.parse_around_equals(tokens)
+        try:
+            self.parse_around_equals(tokens)
+        except ValueError:
+            # The Parameter Name has already been consumed, so this
+            # cannot be some other kind of statement: it is an error.
+            tokens.throw(
+                ValueError,
+                f'Expecting an equals sign after "{parameter_name}" ',
+            )
 
         try:
             # print(f'parameter name: {parameter_name}')
